@@ -229,8 +229,10 @@ RETCODE adfUndelDir ( struct AdfVolume * vol,
     name[(int)entry->nameLen] = '\0';
     /* insert the entry in the parent hashTable, with the headerKey sector pointer */
     adfSetBlockUsed(vol,entry->headerKey);
-    if ( adfCreateEntry ( vol, &parent, name, entry->headerKey ) == -1 )
+    if ( adfCreateEntry ( vol, &parent, name, entry->headerKey ) == -1 ) {
+        adfSetBlockFree(vol,entry->headerKey);
         return RC_ERROR;
+    }
 
     if (isDIRCACHE(vol->dosType)) {
         rc = adfAddInCache ( vol, &parent, (struct bEntryBlock *) entry );
@@ -274,37 +276,44 @@ RETCODE adfUndelFile ( struct AdfVolume *        vol,
     if ( rc != RC_OK )
         return rc;
 
-    /* the header block was released with the file: it comes back with it */
-    if ( !adfIsBlockFree(vol, entry->headerKey) ) {
+    /* the header block was released with the file: it comes back with it;
+       nothing is marked before every block is known to be free */
+    BOOL allFree = adfIsBlockFree(vol, entry->headerKey);
+    for(i=0; allFree && i<fileBlocks.nbData; i++)
+        allFree = adfIsBlockFree(vol,fileBlocks.data[i]);
+    for(i=0; allFree && i<fileBlocks.nbExtens; i++)
+        allFree = adfIsBlockFree(vol,fileBlocks.extens[i]);
+
+    rc = allFree ? adfReadEntryBlock ( vol, pSect, &parent ) : RC_ERROR;
+    if ( rc != RC_OK ) {
         free(fileBlocks.data);
         free(fileBlocks.extens);
-        return RC_ERROR;
-    }
-    adfSetBlockUsed(vol, entry->headerKey);
-
-    for(i=0; i<fileBlocks.nbData; i++)
-        if ( !adfIsBlockFree(vol,fileBlocks.data[i]) )
-            return RC_ERROR;
-        else
-            adfSetBlockUsed(vol, fileBlocks.data[i]);
-    for(i=0; i<fileBlocks.nbExtens; i++)
-        if ( !adfIsBlockFree(vol,fileBlocks.extens[i]) )
-            return RC_ERROR;
-        else
-            adfSetBlockUsed(vol, fileBlocks.extens[i]);
-
-    free(fileBlocks.data);
-    free(fileBlocks.extens);
-
-    rc = adfReadEntryBlock ( vol, pSect, &parent );
-    if ( rc != RC_OK )
         return rc;
+    }
+
+    adfSetBlockUsed(vol, entry->headerKey);
+    for(i=0; i<fileBlocks.nbData; i++)
+        adfSetBlockUsed(vol, fileBlocks.data[i]);
+    for(i=0; i<fileBlocks.nbExtens; i++)
+        adfSetBlockUsed(vol, fileBlocks.extens[i]);
 
     strncpy(name, entry->fileName, entry->nameLen);
     name[(int)entry->nameLen] = '\0';
     /* insert the entry in the parent hashTable, with the headerKey sector pointer */
-    if ( adfCreateEntry(vol, &parent, name, entry->headerKey) == -1 )
+    if ( adfCreateEntry(vol, &parent, name, entry->headerKey) == -1 ) {
+        /* refused (the name is taken again): the blocks stay free */
+        adfSetBlockFree(vol, entry->headerKey);
+        for(i=0; i<fileBlocks.nbData; i++)
+            adfSetBlockFree(vol, fileBlocks.data[i]);
+        for(i=0; i<fileBlocks.nbExtens; i++)
+            adfSetBlockFree(vol, fileBlocks.extens[i]);
+        free(fileBlocks.data);
+        free(fileBlocks.extens);
         return RC_ERROR;
+    }
+
+    free(fileBlocks.data);
+    free(fileBlocks.extens);
 
     if (isDIRCACHE(vol->dosType)) {
         rc = adfAddInCache ( vol, &parent, (struct bEntryBlock *) entry );
